@@ -5,7 +5,7 @@ CONFIG = {
         {"name": "ptt", "pkg": "c07", "bin": "c07", "driver": "drv_c07", "reset_prefix": "reset", "timeout": 2400,
          "args": ["-layer", "ptt"], "driver_args": ["ptt"]},
         {"name": "bbs", "pkg": "c07", "bin": "c07", "driver": "drv_c07", "reset_prefix": "reset", "timeout": 2400,
-         "args": ["-layer", "bbs"], "driver_args": ["bbs"], "thorough_only": True},
+         "args": ["-layer", "bbs"], "driver_args": ["bbs"]},
     ],
     "trusted_base": [
         "the declarative rule Spec.mayRead (Model/C07.lean) and its Go twin (go/cmd/c07/oracle.go) are written by hand from the property statement, with bit POSITIONS from pttbbs perm.h; theorem perm_constants ties the regenerated masks to those positions",
